@@ -20,7 +20,7 @@
 EXTENDS Integers, Sequences, FiniteSets, TLC
 
 Nil == "nil"
-StackVals == {"S", "A", "P"}
+StackVals == {"S", "A", "P", "Z"}      \* Z: a native Stack that renders as nothing (empty, or BASIC)
 IsStackVal(v) == v \in StackVals
 
 Flags == {"paren", "fold", "nspad", "lonce", "neg", "fwd", "ronly", "nnest"}
@@ -114,7 +114,9 @@ DefragLimit(m) == IF m <= 0 THEN 50 ELSE m
 DeadState ==
   [live |-> FALSE, kind |-> "NONE", cap |-> 0, fifo |-> FALSE, opts |-> {},
    e |-> <<>>, err |-> "none", haspol |-> FALSE, acc |-> {}, mtx |-> FALSE,
-   id |-> "", cat |-> "", delim |-> "", sym |-> "", enc |-> <<>>]
+   id |-> "", cat |-> "", delim |-> "", sym |-> "", enc |-> <<>>,
+   \* user closures (C14): validity policy none / approving / rejecting; the others installed or not
+   vpol |-> "none", ppol |-> FALSE, epol |-> FALSE, upol |-> FALSE, mpol |-> FALSE]
 
 NewState(kind, cap) ==
   [DeadState EXCEPT !.live = TRUE, !.kind = kind, !.cap = cap]
@@ -155,6 +157,9 @@ KindObs(s) == IF s.sym # "" THEN s.sym
 (* untouched and return the zero result of their signature.                *)
 (***************************************************************************)
 Keep(s, r) == [s |-> s, ret |-> r]
+
+\* the Stack decoded by Marshal: empty ("Z") when only the label was given
+MarshalVal(c) == IF c.xs = <<>> \/ c.kind = "BASIC" THEN "Z" ELSE "S"     \* Z: renders as nothing
 
 IsMutator(op) ==
   op \in {"Push", "Pop", "Insert", "Remove", "Replace", "Swap", "Reverse", "Reset",
@@ -219,13 +224,22 @@ StepLive(s, c) ==
          [s |-> [s EXCEPT !.enc = IF c.pairs = <<>> THEN <<>> ELSE EncAddAll(s.enc, c.pairs)],
           ret |-> <<>>]
     [] c.op = "Free" -> [s |-> DeadState, ret |-> <<"nil">>]
+    [] c.op = "SetValidityPolicy" -> [s |-> [s EXCEPT !.vpol = c.mode], ret |-> <<>>]
+    [] c.op = "SetPresentationPolicy" ->
+         \* a BASIC stack refuses a presentation policy and records an error
+         IF s.kind = "BASIC" THEN [s |-> [s EXCEPT !.err = "set"], ret |-> <<>>]
+         ELSE [s |-> [s EXCEPT !.ppol = c.on], ret |-> <<>>]
+    [] c.op = "SetEqualityPolicy" -> [s |-> [s EXCEPT !.epol = c.on], ret |-> <<>>]
+    [] c.op = "SetUnmarshaler" -> [s |-> [s EXCEPT !.upol = c.on], ret |-> <<>>]
+    [] c.op = "SetMarshaler" -> [s |-> [s EXCEPT !.mpol = c.on], ret |-> <<>>]
+    [] c.op = "Marshal" /\ s.mpol -> Keep(s, <<"closure">>)        \* the installed Marshaler decides; nothing is pushed
     [] c.op = "Marshal" ->
          \* an initialised receiver gains the decoded Stack as ONE new element,
          \* through Push (so capacity, no-nesting and a push policy apply)
          [s |-> IF s.haspol
-                THEN LET r == PushPol(s.e, s.cap, s.acc, <<"S">>, <<>>) IN
+                THEN LET r == PushPol(s.e, s.cap, s.acc, <<MarshalVal(c)>>, <<>>) IN
                      [s EXCEPT !.e = r.e, !.err = IF r.rej THEN "set" ELSE s.err]
-                ELSE [s EXCEPT !.e = PushAll(s.e, s.cap, "nnest" \in s.opts, <<"S">>)],
+                ELSE [s EXCEPT !.e = PushAll(s.e, s.cap, "nnest" \in s.opts, <<MarshalVal(c)>>)],
           ret |-> <<"nil">>]
 
 Step(s, c) ==
@@ -252,7 +266,8 @@ Step(s, c) ==
        [s |-> [NewState(c.kind, 0) EXCEPT !.e = c.xs], ret |-> <<"nil">>]
   ELSE IF ~s.live THEN Keep(s, ZeroRet(c))
   ELSE IF ReadOnly(s) THEN Keep(s, IF c.op = "Free" THEN <<"err">>
-                                   ELSE IF c.op = "Marshal" THEN <<"nil">> ELSE ZeroRet(c))
+                                   ELSE IF c.op = "Marshal" THEN (IF s.mpol THEN <<"closure">> ELSE <<"nil">>)
+                                   ELSE ZeroRet(c))
   ELSE StepLive(s, c)
 
 (***************************************************************************)
@@ -287,7 +302,8 @@ Obs(s) ==
      back |-> <<Nil, "false">>, bits |-> <<>>, ronly |-> "false", paren |-> "false",
      padded |-> "true", cannest |-> "false", nesting |-> "false", err |-> "none",
      canmtx |-> "false", id |-> "unspecified", cat |-> "", delim |-> "", sym |-> "",
-     enc |-> <<>>, isenc |-> "false", elems |-> <<>>, integ |-> "ok", locked |-> "false"]
+     enc |-> <<>>, isenc |-> "false", elems |-> <<>>, integ |-> "ok", locked |-> "false",
+     valid |-> "err", strsrc |-> "empty", eqsrc |-> "none", umsrc |-> "none"]
   ELSE
     [init |-> "true", len |-> L, empty |-> B2S(L = 0),
      cap |-> IF s.cap > 0 THEN s.cap ELSE -1,
@@ -302,6 +318,17 @@ Obs(s) ==
      nesting |-> B2S(\E n \in 1..L : IsStackVal(s.e[n])),
      err |-> s.err, canmtx |-> B2S(s.mtx), id |-> s.id, cat |-> s.cat,
      delim |-> s.delim, sym |-> s.sym, enc |-> s.enc, isenc |-> B2S(Len(s.enc) > 0),
-     elems |-> s.e, integ |-> "ok", locked |-> "false"]
+     elems |-> s.e, integ |-> "ok", locked |-> "false",
+     \* closures: Valid reports an error exactly when the validity closure does; a rejected or BASIC
+     \* stack renders empty; otherwise an installed closure's result is what the method returns
+     valid |-> IF s.vpol = "bad" THEN "err" ELSE "ok",
+     strsrc |-> IF s.kind = "BASIC" \/ s.vpol = "bad" THEN "empty"
+                ELSE IF s.ppol THEN "closure"
+                \* built-in rendering is empty only when nothing contributes: no parentheses, no lead-once
+                \* operator (LIST has none), and every element is an empty stack
+                ELSE IF (\A n \in 1..L : s.e[n] = "Z") /\ "paren" \notin s.opts /\ ("lonce" \notin s.opts \/ s.kind = "LIST")
+                     THEN "empty" ELSE "builtin",
+     eqsrc |-> IF s.epol THEN "closure" ELSE "builtin",
+     umsrc |-> IF s.upol THEN "closure" ELSE "builtin"]
 
 =============================================================================
